@@ -123,8 +123,10 @@ type liveLink struct {
 
 func (wd *world) links() (live, dead []liveLink) {
 	for wi, wr := range wd.wires {
-		for side, l := range []peering.Link{wr.w.LinkA, wr.w.LinkB} {
-			if l == nil {
+		// the accepting side's link object counts whether or not it got
+		// registered: an established link that is not closing must be found.
+		for side, l := range []peering.Link{wr.w.LinkA, wr.w.AttemptB} {
+			if l == nil || (side == 1 && !wr.w.DoneB) {
 				continue
 			}
 			ll := liveLink{l, wr.from, wr.to, wi}
